@@ -80,7 +80,7 @@ def vsel(vs, max_n=6):
     )
 
 
-label_st = st.sampled_from([None, None, "", "step 1", "Transfer µ", "x", "add 50 % v/v {0} %s", "100%"])
+label_st = st.sampled_from([None, None, "", "step 1", "Transfer µ", "x", "add 50 % v/v {0} %s", "100%", "  ", "line 1\nline 2"])
 
 
 # ---------------------------------------------------------------------------------------------
